@@ -481,4 +481,77 @@ theorem replay_all (cU cR : RunCfg κ) (m : Nat) (hU : CountOK cU.s)
 
 end strat
 
+/-! ### the snapshot is the database of an earlier step; the invariant along an algorithm -/
+
+section snap
+variable (H : Pt → κ) (cfg : Cfg) (val : String → Pt → Val) (strat : Strategy)
+
+omit [DecidableEq κ] in
+theorem backup_snap (s : St κ) : (backup s).snap = s.snap ∨ (backup s).snap = (backup s).h.db := by
+  unfold backup
+  cases doExport s.h true with
+  | none => exact Or.inl rfl
+  | some h' => exact Or.inr rfl
+
+theorem computedSt_snap (s : St κ) (r : Req) (v : Val) :
+    (computedSt H cfg s r v).snap = s.snap ∨
+      (computedSt H cfg s r v).snap = (computedSt H cfg s r v).h.db := by
+  have hdb := computedSt_db H cfg s r v
+  rw [hdb]
+  unfold computedSt notifyStore notifyNewIter
+  cases cfg.eachCall <;> cases cfg.eachIter <;> cases unseen s.h.db r.p <;> simp only [if_true, if_false, Bool.false_eq_true]
+  all_goals first
+    | exact Or.inl rfl
+    | (rcases backup_snap (storeSt H s r v) with h | h
+       · left; simpa [storeSt] using h
+       · right; simpa [storeSt, doStore] using h)
+    | (rcases backup_snap (backup (storeSt H s r v)) with h | h
+       · rcases backup_snap (storeSt H s r v) with h' | h'
+         · left; simpa [storeSt] using h.trans h'
+         · right; simpa [storeSt, doStore] using h.trans h'
+       · right; simpa [storeSt, doStore] using h)
+
+theorem stratStep_snap (c : RunCfg κ) :
+    (stratStep H cfg val strat c).s.snap = c.s.snap ∨
+      (stratStep H cfg val strat c).s.snap = (stratStep H cfg val strat c).s.h.db := by
+  by_cases hl : c.live = true
+  · rcases stratStep_cases H cfg val strat c hl with ⟨_, e⟩ | ⟨r, _, ⟨v, _, e⟩ | ⟨_, _, _, e⟩ | ⟨_, _, e⟩⟩
+    · rw [e]; exact Or.inl rfl
+    · rw [e]; exact Or.inl rfl
+    · rw [e]; exact Or.inl rfl
+    · rw [e]; exact computedSt_snap H cfg c.s r _
+  · rw [stratStep_dead H cfg val strat c (by simpa using hl)]; exact Or.inl rfl
+
+/-- **The snapshot is the database the run had at an earlier step** (the last one that notified
+    the backup listener). -/
+theorem snapshot_is_earlier_database (c0 : RunCfg κ) (h0 : c0.s.snap = c0.s.h.db) (j : Nat) :
+    ∃ m, m ≤ j ∧ (stratRun H cfg val strat j c0).s.snap = (stratRun H cfg val strat m c0).s.h.db := by
+  induction j with
+  | zero => exact ⟨0, Nat.le_refl 0, h0⟩
+  | succ j ih =>
+    obtain ⟨m, hm, hs⟩ := ih
+    rcases stratStep_snap H cfg val strat (stratRun H cfg val strat j c0) with h | h
+    · exact ⟨m, by omega, by simp only [stratRun]; rw [h, hs]⟩
+    · exact ⟨j + 1, Nat.le_refl _, by simpa only [stratRun] using h⟩
+
+theorem inv_stratStep (hinj : Function.Injective H) (c : RunCfg κ) (h : Inv H cfg c.s) :
+    Inv H cfg (stratStep H cfg val strat c).s := by
+  by_cases hl : c.live = true
+  · rcases stratStep_cases H cfg val strat c hl with ⟨_, e⟩ | ⟨r, _, ⟨v, _, e⟩ | ⟨_, _, _, e⟩ | ⟨hn, hm, e⟩⟩
+    · rw [e]; exact h
+    · rw [e]; exact h
+    · rw [e]; exact h
+    · rw [e]
+      exact ⟨inv0_computedSt H cfg hinj c.s h.base r _ hn,
+        fun hc => computedSt_eachCall H cfg hinj c.s h.base r _ hn hc⟩
+  · rw [stratStep_dead H cfg val strat c (by simpa using hl)]; exact h
+
+theorem inv_stratRun (hinj : Function.Injective H) (c : RunCfg κ) (h : Inv H cfg c.s) (n : Nat) :
+    Inv H cfg (stratRun H cfg val strat n c).s := by
+  induction n with
+  | zero => exact h
+  | succ n ih => exact inv_stratStep H cfg val strat hinj _ ih
+
+end snap
+
 end GV.C12
